@@ -251,6 +251,12 @@ class Env:
     def _ev_cls(self, s):
         return self.L.QUERY_CLASSES[s["name"]]
 
+    def _ev_reg(self, s):
+        c = self.L.REG.get(s["c"])
+        if c is None:
+            raise HarnessError(f"unknown class {s['c']}")
+        return c
+
     def _ev_new(self, s):
         c = self.L.REG.get(s["c"])
         if c is None:
